@@ -781,6 +781,10 @@ func newGen(prop string, seed, run int64, thorough bool) *genCtx {
 	g.ft = BaseFeat(r, thorough)
 	g.h = &History{Prop: prop, Seed: seed, Run: run}
 	g.h.Cfg = Config{Recover: r.P(0.5), Defer: r.P(0.15), ShuffleSeed: r.I64(), PanicKind: r.Intn(3)}
+	if r.P(0.35) {
+		// some universe positions are struct values instead of pointers
+		g.h.Cfg.ValMask = uint32(r.U64()) & uint32(r.U64()) & (1<<NumK - 1)
+	}
 	g.m = NewModel(g.h.Cfg.Defer)
 	return g
 }
